@@ -129,24 +129,126 @@ theorem run_uidsOk {sid : StateId} {s : Snap} (hinv : Snap.Inv s) {l : List Resp
       · right; rw [hcons, ← hyu]; exact List.mem_append_left _ hin
     · right; rw [hcons]; exact List.mem_append_right _ hin
 
-/-- popped and retained EXISTS together are the queue's EXISTS -/
-theorem existsUids_popAux_perm (skip : List MsgId) (l : List Responder) :
-    (existsUids (popAux skip l).1 ++ existsUids (popAux skip l).2).Perm (existsUids l) := by
-  induction l generalizing skip with
+theorem existsUids_eq_nil {l : List Responder} (h : ∀ r ∈ l, r.isExists = false) : existsUids l = [] := by
+  induction l with
+  | nil => rfl
+  | cons r rs ih =>
+    have hr := h r List.mem_cons_self
+    have := ih (fun x hx => h x (List.mem_cons_of_mem _ hx))
+    cases r with
+    | «exists» id uid fl t o => simp [Responder.isExists] at hr
+    | expunge id => rw [existsUids_cons_expunge, this]
+    | fetch id fl op a b c => rw [existsUids_cons_fetch, this]
+
+/-- **a `permitExpunge = false` pop does not reorder arrivals**: the popped EXISTS followed by the
+    retained EXISTS are the queue's EXISTS, in queue order -/
+theorem existsUids_popAux (hexp hex : List MsgId) (l : List Responder) :
+    existsUids (popAux hexp hex l).1 ++ existsUids (popAux hexp hex l).2 = existsUids l := by
+  induction l generalizing hexp hex with
   | nil => simp [popAux, existsUids]
   | cons r rs ih =>
     cases r with
     | «exists» id uid fl t o =>
-      by_cases h : id ∈ skip
-      · simp only [popAux, List.contains_iff_mem, h, if_true, existsUids_cons_exists]
-        exact List.perm_middle.trans ((ih _).cons uid)
-      · simp only [popAux, List.contains_iff_mem, h, if_false, existsUids_cons_exists, List.cons_append]
-        exact (ih _).cons uid
+      cases h : holdsExists hexp hex id
+      · rw [popAux_exists_popped h]
+        simp only [existsUids_cons_exists, List.cons_append, ih]
+      · rw [popAux_exists_held h]
+        have hnil := existsUids_eq_nil (popAux_fst_no_exists hexp (id :: hex) rs (List.cons_ne_nil _ _))
+        have := ih hexp (id :: hex)
+        rw [hnil, List.nil_append] at this
+        simp only [existsUids_cons_exists, hnil, List.nil_append, this]
     | expunge id =>
-      simp only [popAux, existsUids_cons_expunge]
-      exact ih _
+      rw [popAux_expunge]
+      simp only [existsUids_cons_expunge, ih]
     | fetch id fl op a b c =>
-      simp only [popAux, existsUids_cons_fetch]
-      exact ih _
+      by_cases h : id ∈ hex
+      · rw [popAux_fetch_held h]
+        simp only [existsUids_cons_fetch, ih]
+      · rw [popAux_fetch_popped h]
+        simp only [existsUids_cons_fetch, ih]
+
+/-- a retained EXISTS is a queued EXISTS, verbatim -/
+theorem popAux_snd_mem_exists (hexp hex : List MsgId) (l : List Responder) {r : Responder}
+    (h : r ∈ (popAux hexp hex l).2) (he : r.isExists = true) : r ∈ l := by
+  obtain ⟨r0, h0, rfl⟩ := popAux_snd_mem hexp hex l h
+  have : r0.isExists = true := by simpa using he
+  rw [Responder.unsilent_of_isExists this]; exact h0
+
+theorem Responder.isExists_of_isOwnExists {sid : StateId} {r : Responder} (h : r.isOwnExists sid = true) :
+    r.isExists = true := by
+  cases r <;> simp_all [Responder.isOwnExists, Responder.isExists]
+
+theorem UidsAsc.uidsOk {sid : StateId} {s : Snap} {l : List Responder} (h : UidsAsc s l) : UidsOk sid s l := by
+  refine ⟨h.1, fun x hx u hu => Nat.ne_of_lt (h.2 x hx u hu), ?_⟩
+  intro r hr ho x hx
+  exact h.2 x hx _ (uidOr0_mem_existsUids hr ho)
+
+theorem UidsAsc.sublist {s : Snap} {l l' : List Responder} (hsub : l'.Sublist l) (h : UidsAsc s l) :
+    UidsAsc s l' := by
+  have hsubU : (existsUids l').Sublist (existsUids l) := hsub.filterMap _
+  exact ⟨h.1.sublist hsubU, fun x hx u hu => h.2 x hx u (hsubU.subset hu)⟩
+
+/-- `UidsOk` passes from the queue to what a `permitExpunge = false` flush retains, on the snapshot
+    the flush leaves (`s1` = the popped responders handled on `s`) -/
+theorem UidsOk.retained {sid : StateId} {s s1 : Snap} {l : List Responder} (h : UidsOk sid s l)
+    (hu1 : ∀ x ∈ s1, (∃ y ∈ s, y.uid = x.uid) ∨ x.uid ∈ existsUids (popAux [] [] l).1) :
+    UidsOk sid s1 (popAux [] [] l).2 := by
+  have heq := existsUids_popAux [] [] l
+  have hpw : (existsUids (popAux [] [] l).1 ++ existsUids (popAux [] [] l).2).Pairwise (· < ·) := by
+    rw [heq]; exact h.1
+  obtain ⟨_, hpw2, hlt⟩ := List.pairwise_append.mp hpw
+  have hsubU : ∀ u ∈ existsUids (popAux [] [] l).2, u ∈ existsUids l := by
+    intro u hu; rw [← heq]; exact List.mem_append_right _ hu
+  refine ⟨hpw2, ?_, ?_⟩
+  · intro x hx u hu
+    rcases hu1 x hx with ⟨y, hy, hyu⟩ | hin
+    · rw [← hyu]; exact h.2.1 y hy u (hsubU u hu)
+    · exact Nat.ne_of_lt (hlt _ hin _ hu)
+  · intro r hr ho x hx
+    have hrl : r ∈ l := popAux_snd_mem_exists [] [] l hr (Responder.isExists_of_isOwnExists ho)
+    rcases hu1 x hx with ⟨y, hy, hyu⟩ | hin
+    · rw [← hyu]; exact h.2.2 r hrl ho y hy
+    · exact hlt _ hin _ (uidOr0_mem_existsUids hr ho)
+
+/-- `UidsAsc` passes from the queue to what a `permitExpunge = false` flush retains, likewise -/
+theorem UidsAsc.retained {s s1 : Snap} {l : List Responder} (h : UidsAsc s l)
+    (hu1 : ∀ x ∈ s1, (∃ y ∈ s, y.uid = x.uid) ∨ x.uid ∈ existsUids (popAux [] [] l).1) :
+    UidsAsc s1 (popAux [] [] l).2 := by
+  have heq := existsUids_popAux [] [] l
+  have hpw : (existsUids (popAux [] [] l).1 ++ existsUids (popAux [] [] l).2).Pairwise (· < ·) := by
+    rw [heq]; exact h.1
+  obtain ⟨_, hpw2, hlt⟩ := List.pairwise_append.mp hpw
+  refine ⟨hpw2, ?_⟩
+  intro x hx u hu
+  rcases hu1 x hx with ⟨y, hy, hyu⟩ | hin
+  · rw [← hyu]; exact h.2 y hy u (by rw [← heq]; exact List.mem_append_right _ hu)
+  · exact hlt _ hin _ hu
+
+/-- under `UidsAsc` every EXISTS of the list adds at the end of the snapshot it meets -/
+theorem allAtEnd_of_uidsAsc {sid : StateId} {s : Snap} (hinv : Snap.Inv s) {l : List Responder}
+    (h : UidsAsc s l) : AllAtEnd false sid s l := by
+  induction l generalizing s with
+  | nil => trivial
+  | cons r rs ih =>
+    obtain ⟨s1, hs1, _, hu1⟩ := snapStep_uidsOk hinv (h.uidsOk (sid := sid))
+    obtain ⟨_, hsnap⟩ := handle_snap_of_ok (close := false) hs1
+    have hcons : existsUids (r :: rs) = existsUids [r] ++ existsUids rs := by
+      rw [← existsUids_append]; rfl
+    have hpw := h.1
+    rw [hcons, List.pairwise_append] at hpw
+    refine ⟨?_, ?_⟩
+    · cases r with
+      | «exists» id uid fl t o =>
+        intro _ x hx
+        exact h.2 x hx uid (by simp [existsUids_cons_exists])
+      | expunge id => trivial
+      | fetch id fl op a b c => trivial
+    · rw [hsnap]
+      apply ih (snapStep_inv hinv hs1)
+      refine ⟨hpw.2.1, ?_⟩
+      intro x hx u hu
+      rcases hu1 x hx with ⟨y, hy, hyu⟩ | hin
+      · rw [← hyu]; exact h.2 y hy u (by rw [hcons]; exact List.mem_append_right _ hu)
+      · exact hpw.2.2 _ hin _ hu
 
 end Gluon
